@@ -28,6 +28,7 @@ coordinates written to the input and the approximate orientation reported by the
 import json
 import math
 import re
+import time
 import numpy as np
 
 from .. import runner, netgen, xmlout, netlevel
@@ -674,8 +675,11 @@ def inj_weak_intersection(rng, net, info, name):
     sts = _stations(net, info["base"])
     if len(sts) < 2 or info["datum"] != "fixed":
         return inj_isolated(rng, net, info, name)
-    k = [int(x) for x in rng.permutation(len(sts))[:2]]
-    c1, c2 = sts[k[0]], sts[k[1]]
+    k = [int(x) for x in rng.permutation(len(sts))]
+    c1 = sts[k[0]]
+    c2 = next((sts[j] for j in k[1:] if sts[j].station != c1.station), None)
+    if c2 is None:
+        return inj_isolated(rng, net, info, name)
     a, b = net.points[c1.station], net.points[c2.station]
     d = hdist(a, b)
     t = float(rng.uniform(0.35, 0.65))
@@ -1457,9 +1461,17 @@ def run(tier, seed, only=None):
 
     def work(job):
         i, alg, stage, txt = job
-        g = xmlout.run_gama_local(txt, ck.tmp, "c%d-%s-%s" % (i, stage, alg),
-                                  args=["--algorithm", alg, "--language", "en"], outputs=("xml", "text"), trace=True)
-        return job, g
+        for attempt in range(6):
+            try:
+                g = xmlout.run_gama_local(txt, ck.tmp, "c%d-%s-%s" % (i, stage, alg),
+                                          args=["--algorithm", alg, "--language", "en"], outputs=("xml", "text"),
+                                          trace=True)
+                return job, g
+            except OSError:
+                # the shared build tree is being relinked by another check (binary momentarily not executable)
+                if attempt == 5:
+                    raise
+                time.sleep(5)
 
     res = {}
     for (i, alg, stage, txt), g in runner.pmap(work, [(i, a, "in", cases[i][2]) for i in idx for a in ALGS]):
@@ -1498,7 +1510,10 @@ def run(tier, seed, only=None):
             ck.violation("algorithm-dependent-exclusion:%s" % dk,
                          "the algorithms exclude different items for the same input (%s): %s" % (
                              "+".join(sorted(set(info["defects"]))) or "blunders only",
-                             {",".join(a): (s if isinstance(s, str) else s[0]) for s, a in sig.items()}),
+                             {",".join(a): (s if isinstance(s, str) else "points %s, %d passive observations %s" % (
+                                 list(s[0]), sum(c for _, c in s[1]),
+                                 sorted(set(s[1]) ^ set(next(x for x in sig if not isinstance(x, str))[1]), key=str)[:3]))
+                              for s, a in sig.items()}),
                          dict(seed=seed, index=i, kind=net.kind, defects=info["defects"], outcomes=ocs, input=txt))
         elif len(sig) == 1 and isinstance(next(iter(sig)), str):
             ck.violation("not-adjusted:%s:%s" % (dk, next(iter(sig))),
